@@ -77,6 +77,37 @@ func init() {
 		Rule: "units = 19 property kinds (integer, number, string with quote/backslash/non-ASCII, boolean, nullable integer/string, typed/untyped/mixed enum, arrays of string/integer, nested array, object with required fields inline and via $ref, object with optional fields, typed additionalProperties map, date, date-time, sized integer) x 2 defaults x required flag; documents = property absent, null, present with another value, present with the default. Judged: verdict, decoded value (absent/null => default, present => document value), re-marshalled value, and that the emitted package compiles. distinct_nontrivial = distinct (unit, document) pairs with a definite reference verdict"}
 }
 
+func tierCfg(tier string) string { return "  Tier = \"" + tier + "\"\n" }
+
+func maxStr(q, t int) func(string) string {
+	return func(tier string) string {
+		if tier == "thorough" {
+			return fmt.Sprintf("  MaxStr = %d\n", t)
+		}
+		return fmt.Sprintf("  MaxStr = %d\n", q)
+	}
+}
+
+func frac(q, t float64) func(string) float64 {
+	return func(tier string) float64 {
+		if tier == "thorough" {
+			return t
+		}
+		return q
+	}
+}
+
+func init() {
+	families["C02"] = &rt.Family{Prop: "C02", Module: "MC_C02", PackSize: 1, Judge: "value",
+		More: []rt.Extra{
+			{Module: "MC_C03"}, {Module: "MC_C04"}, {Module: "MC_C08"}, {Module: "MC_C09"},
+			{Module: "MC_C06", ExtraCfg: maxStr(2, 3), Frac: frac(0.5, 1)},
+			{Module: "MC_C07", ExtraCfg: tierCfg, Frac: frac(0.25, 1)},
+			{Module: "MC_C05", Frac: frac(0.02, 0.25)},
+		},
+		Rule: "units = C02's own (objects with declared properties and additionalProperties true/{}/6 typed kinds x every subset of 4 extra keys incl. a Go field name, a case variant and the empty key; 5 string formats x required/optional/item; integers beyond 2^53 and nesting depth 3) plus the units of the C03, C04, C08, C09 families and seeded samples of C05-C07; every document that is valid under the reference semantics must be accepted, its reflective dump must hold every declared value in the field bound to that name (defaults for absent ones, exactly the undeclared keys in AdditionalProperties) and the re-marshalled JSON must reproduce every non-empty declared value. distinct_nontrivial = distinct (unit, document) pairs with a definite reference verdict"}
+}
+
 func hasMult(u *rt.Unit) bool {
 	b := fmt.Sprint(u.Raw["schema"], u.Raw["defs"])
 	return containsStr(b, "multipleOf")
